@@ -49,7 +49,7 @@ legend = ("Columns 01…17 = `./check Cxx quick` with the change applied to /rep
           "%s by the check of the property that owns the route they use (see the text below); %s by none - it no longer breaks its property on the "
           "current tree (see below). Off-diagonal marks are the shared `write`/`conv` ties doing their job: most changes break several properties, or at "
           "least the correspondence several properties rest on. Rows were computed with the machinery as it stood after each round's strengthening "
-          "(first two rounds: before the third round's additions; rounds 4 and 5: with the final machinery)." % (conc, tot, ', '.join(elsewhere) or 'none', ', '.join(nowhere) or 'none'))
+          "(first two rounds: before the third round's additions; rounds 4 to 6: after that round's strengthening; round 6: target checks only)." % (conc, tot, ', '.join(elsewhere) or 'none', ', '.join(nowhere) or 'none'))
 table = head + '\n' + '\n'.join(rows) + '\n\n' + legend + '\n'
 p = os.path.join(V, 'DESIGN.md')
 s = open(p).read()
